@@ -8,7 +8,7 @@ def run(tier):
     progs = (en.curated() + en.curated(bottom_up=True) +
              en.curated(names=["mixed14", "inject", "orthoroot"], bottom_up=True, cxx="clang++", std="c++14") +
              en.curated(names=["mixed14", "inject", "headless"], manual=True))
-    classes = en.cls("CONSUME") | (en.cls("REQ") if thorough else 0)
+    classes = en.cls("CONSUME", "REQ")
     args = ["--tier", tier, "--dev", "2" if thorough else "1", "--batch", "1", "--classes", str(classes),
             "--deadline", str(1200 if thorough else 120)]
     if thorough:
